@@ -285,7 +285,7 @@ CHECKS["C11"] = dict(
     design="DESIGN.md section 3 C11", bounded=True)
 CHECKS["C16"] = dict(
     technique="abstract interpretation of linesplit on a small-scope catalogue of texts and run layouts, the clauses of the statement checked on the output lines",
-    text="For every text of up to 5 symbols (thorough 7) over {a, b, space, tab} (thorough plus newline; longer ones thinned "
+    text="For every text of up to 5 symbols (thorough 6) over {a, b, space, tab} (thorough plus newline and U+3000; longer ones thinned "
          "deterministically), as a str and as two FmtStr layouts whose formatting changes inside words and inside whitespace, some "
          "longer hand-written texts, and columns 1, 2, 3, 5, 9 (thorough 1..6, 9): no line longer than the limit, empty or "
          "starting / ending with whitespace; the non-blank characters of all lines in order are those of the text with their "
